@@ -442,11 +442,287 @@ pub fn fmt(tier: &str) {
     }
 }
 
+// ------------------------------------------------------------------------------------------------
+// strftime / strptime: correspondence with the Lean model `JaqVerif/C20/Strtime.lean`
+//   fmtcorr  : `id \t c20.strftime <hexfmt> <vx> \t real` and `id \t c20.strptime <hexfmt> <hextext> \t real`
+//   dirtable : `DT \t <directive letter> \t <epoch seconds> \t <hex of the real rendering>` for a FIXED
+//              list of instants and every modelled single directive (translated into
+//              `lean/JaqVerif/Gen/C20Strtime.lean` by the check and re-proved by `decide`)
+
+/// the directives of the model (`JaqVerif/C20/Strtime.lean: dirOfChar`)
+pub const MODEL_DIRS: &[&str] = &["%Y", "%m", "%d", "%e", "%H", "%M", "%S", "%j", "%a", "%b", "%h", "%z", "%Z", "%s", "%%", "%F", "%T"];
+/// directives / extensions outside the model (answered `U`)
+const OTHER_DIRS: &[&str] = &["%A", "%B", "%y", "%I", "%p", "%u", "%:z", "%f", "%G", "%V", "%C", "%D", "%R", "%n", "%t", "%Q", "%c",
+                              "%-d", "%_H", "%5Y", "%w", "%U", "%k", "%l", "%P", "%N", "%q", "%::z", "%.3f", "%E", "%"];
+const SEPS: &[&str] = &[" ", "-", ":", "/", ",", ".", "T", "Z", "x", "  ", "\t", "%%", ", ", "", "", "+", "0", "9", " \n", "W"];
+
+fn hexs(b: &[u8]) -> String {
+    if b.is_empty() {
+        return "-".into();
+    }
+    b.iter().map(|x| format!("{:02x}", x)).collect()
+}
+
+/// the text of a `V S<hex>` answer
+fn answer_text(real: &str) -> Option<Vec<u8>> {
+    let h = real.strip_prefix("V S")?;
+    if h.len() % 2 != 0 || h.contains(' ') {
+        return None;
+    }
+    (0..h.len() / 2).map(|i| u8::from_str_radix(&h[2 * i..2 * i + 2], 16).ok()).collect()
+}
+
+fn in_range_edges() -> Vec<i64> {
+    edge_epochs().into_iter().filter(|t| *t >= SEC_MIN as i128 && *t <= SEC_MAX as i128).map(|t| t as i64).collect()
+}
+
+fn mutate(rng: &mut Rng, text: &[u8], pool: &[Vec<u8>]) -> Vec<u8> {
+    let mut t = text.to_vec();
+    let n = t.len();
+    match rng.below(14) {
+        0 if n > 0 => {
+            t.remove(rng.below(n));
+        }
+        1 => t.insert(rng.below(n + 1), *rng.pick(b"0123456789 -+:%aZ\t,./")),
+        2 if n > 0 => {
+            let i = rng.below(n);
+            t[i] = *rng.pick(b"0123456789");
+        }
+        3 if n > 0 => {
+            let i = rng.below(n);
+            t[i] = if t[i].is_ascii_lowercase() { t[i].to_ascii_uppercase() } else { t[i].to_ascii_lowercase() };
+        }
+        4 => t.push(*rng.pick(b"0 9Z\n")),
+        5 => t.insert(0, *rng.pick(b" -+0\t")),
+        6 if n > 0 => {
+            // double a blank / put a blank before a digit
+            let i = rng.below(n);
+            t.insert(i, b' ');
+        }
+        7 if n > 0 => t.truncate(rng.below(n)),
+        8 => t = rng.pick(pool).clone(),
+        9 if n > 0 => {
+            // bump a digit: fields out of range (month 13, day 32, hour 24, second 60/61, ...)
+            let ds: Vec<usize> = (0..n).filter(|i| t[*i].is_ascii_digit()).collect();
+            if !ds.is_empty() {
+                let i = *rng.pick(&ds);
+                t[i] = b'0' + ((t[i] - b'0') + 1 + rng.below(8) as u8) % 10;
+            }
+        }
+        10 if n > 0 => {
+            // swap sign characters
+            for c in t.iter_mut() {
+                if *c == b'+' {
+                    *c = b'-';
+                } else if *c == b'-' && rng.chance(1, 2) {
+                    *c = b'+';
+                }
+            }
+        }
+        11 if n > 0 => {
+            let i = rng.below(n);
+            t[i] = *rng.pick(&[0xc3u8, 0xa9, 0xff, 0x0b, 0x0c, b'\r', 0x00]);
+        }
+        12 if n > 1 => {
+            let i = rng.below(n - 1);
+            t.swap(i, i + 1);
+        }
+        _ => {
+            // offsets other than +0000
+            if let Some(p) = t.windows(5).position(|w| w == b"+0000") {
+                let rep: &[u8] = *rng.pick(&[&b"+0100"[..], b"-0130", b"+2559", b"-2559", b"+2600", b"+0060", b"+010203", b"+01:00", b"+01", b"-0000", b"+000000", b"+0000.5", b"+000060"]);
+                t.splice(p..p + 5, rep.iter().copied());
+            } else {
+                t.extend_from_slice(b" +0100");
+            }
+        }
+    }
+    t
+}
+
+pub fn fmtcorr(tier: &str) {
+    let thorough = tier == "thorough";
+    let mut rng = Rng::new(prng::seed_from_env() ^ 0x5F20);
+    let vars = vec!["f".to_string()];
+    let fstrf = compile_vars("strftime($f)", &vars).expect("compile");
+    let fstrp = compile_vars("strptime($f)", &vars).expect("compile");
+    let edges = in_range_edges();
+    let rand_t = |rng: &mut Rng| -> i64 {
+        match rng.below(3) {
+            0 => SEC_MIN + (rng.next() % ((SEC_MAX - SEC_MIN) as u64 + 1)) as i64,
+            1 => (rng.next() % 4_102_444_800u64) as i64 - 1_000_000_000,
+            _ => -62_167_219_200 + (rng.next() % 63_113_904_000u64) as i64 - 31_556_952_000, // years -1000..1000
+        }
+    };
+
+    // ---- formats
+    let mut formats: Vec<(String, usize)> = vec![]; // (format, number of instants)
+    let all = if thorough { edges.len() } else { edges.len() / 3 };
+    for d in MODEL_DIRS {
+        formats.push((d.to_string(), all));
+    }
+    for f in FORMATS {
+        formats.push((f.to_string(), all / 2));
+    }
+    for f in ["", " ", "x", "%Y%m%d", "%Y%m%d%H%M%S", "%s%Y", "%e%H", "%z%S", "%H%M%S%z", "%d %b %Y", "%Y-%m-%d", "%Y-%m-%d %H", "%Y-%m-%d %H:%M",
+              "%Y-%m-%d %M", "%Y-%m-%d %S", "%Y-%m-%d %H %S", "%Y-%j", "%Y %j %m", "%Y %m %j", "%j", "%m-%d", "%Y", "%H:%M:%S", "%a %F", "%a %Y-%j",
+              "%s %z", "%F %T %z", "%F %T %Z", "%s %F", "%F %s", "%Y %Y", "%m %b %d %Y", "%b %m %d %Y", "%%%Y%%", "%T %F", "%e.%m.%Y", "%h %e, %Y",
+              "é%Y", "%Y\u{e9}", "%F\n%T", "%F\t%T", "  %F  %T  ", "%S:%M:%H %d/%m/%Y", "%Y-%m-%dT%H:%M:%S%z", "%FT%TZ"] {
+        formats.push((f.to_string(), 60));
+    }
+    let nrand = if thorough { 1500 } else { 220 };
+    for k in 0..nrand {
+        let n = 1 + rng.below(7);
+        let mut f = String::new();
+        for i in 0..n {
+            let other = k % 5 == 4 && rng.chance(1, 3);
+            f.push_str(if other { *rng.pick(OTHER_DIRS) } else { *rng.pick(MODEL_DIRS) });
+            if i + 1 < n || rng.chance(1, 4) {
+                f.push_str(*rng.pick(SEPS));
+            }
+        }
+        formats.push((f, if thorough { 40 } else { 24 }));
+    }
+    // complete by construction: permutations of the civil fields with separators
+    for _ in 0..(if thorough { 300 } else { 60 }) {
+        let mut parts: Vec<&str> = vec!["%Y", if rng.chance(1, 2) { "%m" } else { "%b" }, if rng.chance(1, 2) { "%d" } else { "%e" }, "%H", "%M", "%S"];
+        if rng.chance(1, 3) {
+            parts = vec!["%Y", "%j", "%H", "%M", "%S"];
+        }
+        if rng.chance(1, 4) {
+            parts = vec!["%F", "%T"];
+        }
+        if rng.chance(1, 3) {
+            parts.push("%a");
+        }
+        if rng.chance(1, 3) {
+            parts.push("%z");
+        }
+        for i in (1..parts.len()).rev() {
+            parts.swap(i, rng.below(i + 1));
+        }
+        let mut f = String::new();
+        for p in parts {
+            f.push_str(p);
+            f.push_str(*rng.pick(&[" ", "-", ":", "/", ", ", ".", "T", "x", "\t"]));
+        }
+        formats.push((f, if thorough { 40 } else { 24 }));
+    }
+
+    // ---- strftime on integer epochs; strptime on the texts printed and on mutations of them
+    let mut id = 0usize;
+    let mut pool: Vec<Vec<u8>> = vec![b"2024-02-29T12:30:45Z".to_vec(), b"".to_vec(), b" ".to_vec(), b"1709209845".to_vec()];
+    for (fm, n) in &formats {
+        let fv = tstr(fm.as_bytes());
+        let hf = hexs(fm.as_bytes());
+        let mut ts: Vec<i64> = vec![];
+        if *n >= edges.len() {
+            ts.extend(&edges);
+        } else {
+            for _ in 0..(*n * 2 / 3) {
+                ts.push(*rng.pick(&edges));
+            }
+        }
+        for _ in 0..(*n / 3 + 1) {
+            ts.push(rand_t(&mut rng));
+        }
+        for t in ts {
+            let input = int(t as isize);
+            let real = run1(&fstrf, input.clone(), vec![fv.clone()]);
+            println!("sf{}\tc20.strftime {} {}\t{}", id, hf, vx::enc(&input), real);
+            id += 1;
+            if let Some(text) = answer_text(&real) {
+                let r2 = run1(&fstrp, tstr(&text), vec![fv.clone()]);
+                println!("sp{}\tc20.strptime {} {}\t{}", id, hf, hexs(&text), r2);
+                id += 1;
+                if rng.chance(1, 3) {
+                    let m = mutate(&mut rng, &text, &pool);
+                    let r3 = run1(&fstrp, tstr(&m), vec![fv.clone()]);
+                    println!("sm{}\tc20.strptime {} {}\t{}", id, hf, hexs(&m), r3);
+                    id += 1;
+                }
+                if pool.len() < 400 && rng.chance(1, 20) {
+                    pool.push(text);
+                }
+            }
+        }
+    }
+    // ---- strftime on other inputs: fractional epochs, arrays, out of range, non-numbers
+    let mut others: Vec<Val> = vec![float(-1.5), float(-0.5), float(0.5), float(1.5), float(1709164800.25), float(-2208988800.75), float(f64::NAN),
+        float(f64::INFINITY), float(1e300), float(253402207200.5), float(-377705023201.5), int(SEC_MAX as isize + 1), int(SEC_MIN as isize - 1),
+        int(isize::MAX), int(isize::MIN), big_i(1 << 70), dec("1.5"), dec("1e3"),
+        arr(vec![int(2024), int(1), int(29), int(12), int(30), int(45)]), arr(vec![int(2024), int(1), int(29), int(12), int(30), float(45.5)]),
+        arr(vec![int(2024), int(1), int(30), int(12), int(30), int(45)]), arr(vec![int(-9999), int(0), int(1), int(0), int(0), int(0)]),
+        arr(vec![int(9999), int(11), int(31), int(23), int(59), int(59)]), arr(vec![int(-5), int(5), int(7), int(1), int(2), int(3)]),
+        arr(vec![int(2024), int(127), int(1), int(0), int(0), int(0)]), arr(vec![int(2024), int(1)]), arr(vec![])];
+    others.extend(nonnum_pool());
+    for v in &others {
+        for fm in ["%Y-%m-%dT%H:%M:%SZ", "%s", "%a %e %b %Y %j %T %z %Z", "%A"] {
+            let real = run1(&fstrf, v.clone(), vec![tstr(fm.as_bytes())]);
+            println!("so{}\tc20.strftime {} {}\t{}", id, hexs(fm.as_bytes()), vx::enc(v), real);
+            id += 1;
+        }
+    }
+    // ---- hand-written texts
+    for (fm, text) in [("%Y-%m-%d", "-005-01-01"), ("%Y%m", "-00501"), ("%Y-%m-%d", "2024-01-05"), ("%Y-%m-%d %H", "2024-01-05 07"),
+        ("%Y-%m-%d %M", "2024-01-05 08"), ("%Y-%j", "2024-366"), ("%Y-%j", "2023-366"), ("%Y-%j", "2023-000"), ("%s", "12345"), ("%s", "-12345"),
+        ("%s", "+12345"), ("%s", " 12345"), ("%s", "- 12345"), ("%s", "12345 "), ("%s", "99999999999999999999"), ("%s", "9223372036854775808"),
+        ("%s", "9223372036854775807"), ("%s", "0000000000000000000001"), ("%s", "253402207200"), ("%s", "253402207201"), ("%s", "-377705023201"),
+        ("%s", "-377705023202"), ("%a %Y-%m-%d", "Mon 2024-01-05"), ("%a %Y-%m-%d", "fRI 2024-01-05"), ("%a", "Fri"), ("%b", "Jan"),
+        ("%F %T", "9999-12-31 23:59:59"), ("%F %T", "9999-12-30 22:00:00"), ("%F %T", "9999-12-30 22:00:01"), ("%F %T %z", "9999-12-31 23:59:59 +0200"),
+        ("%F %T %z", "-9999-01-01 00:00:00 -0200"), ("%F %T %z", "-9999-01-01 00:00:00 -0159"), ("%F %T", "2024-01-05 23:59:60"),
+        ("%F %T", "2024-01-05 23:59:61"), ("%F %T", "2024-01-05  7: 8: 9"), ("%F %T", "2024-1-5 7:8:9"), ("%F %T", "2024-01-05T07"),
+        ("%F%T", "2024-01-0507:08:09"), ("", ""), (" ", ""), (" ", "   "), ("%%", ""), ("%%", "%"), ("x", "x"), ("x", "y"), ("x", ""),
+        ("%s %z", "1700000000 +0100"), ("%s %z", "1700000000 -2559"), ("%F %z", "2024-01-05 +0100"), ("%F %z", "2024-01-05 +010203"),
+        ("%F %Z", "2024-01-05 UTC"), ("%Y-%m-%d", "+2024-01-05"), ("%Y-%m-%d", "10000-01-05"), ("%Y-%m-%d", "-9999-01-01"),
+        ("%Y-%m-%d", "2023-02-29"), ("%Y-%m-%d", "2024-02-29"), ("%Y-%m-%d", "2024-04-31"), ("%Y-%m-%d", "2024-00-10"), ("%Y-%m-%d", "2024-13-10"),
+        ("%Y-%m-%d", "2024-01-00"), ("%Y-%m-%d", "2024-01-32"), ("%Y %b %e", "2024 fEb  9"), ("%Y %b %e", "2024 Febr 9"), ("%H", "24"), ("%M", "60"),
+        ("%Y %m %j", "2024 03 060"), ("%Y %m %j", "2024 02 061"), ("%Y %d %j", "2024 03 061"), ("%Y %j %a", "2024 061 Fri"), ("%Y %j %a", "2024 061 Sat")] {
+        let real = run1(&fstrp, tstr(text.as_bytes()), vec![tstr(fm.as_bytes())]);
+        println!("sh{}\tc20.strptime {} {}\t{}", id, hexs(fm.as_bytes()), hexs(text.as_bytes()), real);
+        id += 1;
+    }
+}
+
+/// the FIXED instants of the directive table (range limits, leap days, years < 1000, year 0,
+/// negative years, every weekday, every month)
+pub fn table_instants() -> Vec<i64> {
+    let mut v: Vec<i64> = vec![SEC_MIN, SEC_MAX, 0, -1, 1, 1_000_000_000, -62_198_755_200, -62_167_219_200, -62_135_596_800, -62_135_596_801];
+    let at = |y: i64, m: i64, d: i64, h: i64, mi: i64, s: i64| days_from_civil(y, m, d) * 86400 + h * 3600 + mi * 60 + s;
+    v.extend([at(2024, 2, 29, 12, 30, 45), at(2000, 2, 29, 23, 59, 59), at(1900, 2, 28, 0, 0, 0), at(1900, 3, 1, 1, 2, 3), at(2023, 12, 31, 23, 59, 59),
+              at(2024, 12, 31, 9, 8, 7), at(1, 1, 1, 0, 0, 0), at(50, 12, 20, 5, 6, 7), at(999, 12, 31, 10, 20, 30), at(1000, 1, 1, 0, 0, 1),
+              at(0, 2, 29, 4, 5, 6), at(-1, 3, 4, 13, 14, 15), at(-149, 2, 7, 0, 0, 0), at(-999, 7, 9, 20, 0, 0), at(-1000, 10, 10, 10, 10, 10),
+              at(-9999, 12, 31, 23, 59, 59), at(9999, 1, 1, 0, 0, 0)]);
+    for d in 1..=7 {
+        v.push(at(2024, 1, d, d, 2 * d, 3 * d));
+    }
+    for m in 1..=12 {
+        v.push(at(2023, m, 15, m + 10, 4 * m, 5 * m - 1));
+    }
+    v
+}
+
+pub fn dirtable() {
+    let vars = vec!["f".to_string()];
+    let fstrf = compile_vars("strftime($f)", &vars).expect("compile");
+    for d in MODEL_DIRS {
+        for t in table_instants() {
+            let real = run1(&fstrf, int(t as isize), vec![tstr(d.as_bytes())]);
+            match answer_text(&real) {
+                Some(text) => println!("DT\t{}\t{}\t{}", &d[1..], t, hexs(&text)),
+                None => println!("DT\t{}\t{}\t!{}", &d[1..], t, real),
+            }
+        }
+    }
+}
+
 pub fn main(args: &[String]) {
     let tier = std::env::var("VERIF_TIER").unwrap_or_else(|_| "quick".into());
     match args.first().map(|s| s.as_str()) {
         Some("gen") => gen(&tier),
         Some("fmt") => fmt(&tier),
-        _ => eprintln!("c20 gen|fmt"),
+        Some("fmtcorr") => fmtcorr(&tier),
+        Some("dirtable") => dirtable(),
+        _ => eprintln!("c20 gen|fmt|fmtcorr|dirtable"),
     }
 }
